@@ -21,7 +21,7 @@ fn val_json(doc: &Doc, v: Val) -> String {
         Val::Neg(x) => format!("{x}"),
         Val::Null => "null".to_string(),
         Val::Str => "\"x\"".to_string(),
-        Val::Seq(n) => format!("[{}]", doc.data[..n].iter().map(|x| x.to_string()).collect::<Vec<_>>().join(",")),
+        Val::Seq(n) => format!("[{}]", doc.data[..n].iter().map(|x| if doc.unit { "null".to_string() } else { x.to_string() }).collect::<Vec<_>>().join(",")),
         Val::BadSeq => "[\"x\"]".to_string(),
     }
 }
@@ -35,6 +35,21 @@ fn to_json(doc: &Doc) -> String {
 }
 
 fn main() {
+    let mut totals = (0usize, 0usize, 0usize);
+    corpus::<u8>(false, &mut totals);
+    // unit-like elements (`()` reads `null`): the zero-sized instantiation of the same Deserialize impl
+    corpus::<()>(true, &mut totals);
+    let (docs, cmp, bad) = totals;
+    println!("TV documents={docs} comparisons={cmp} mismatches={bad}");
+    if bad > 0 {
+        std::process::exit(1);
+    }
+}
+
+fn corpus<T>(unit: bool, totals: &mut (usize, usize, usize))
+where
+    T: for<'de> Deserialize<'de> + PartialEq + std::fmt::Debug,
+{
     let keysets: Vec<Vec<Key>> = {
         use Key::*;
         vec![
@@ -45,7 +60,7 @@ fn main() {
     };
     let dimvals = [Val::U64(0), Val::U64(1), Val::U64(2), Val::U64(3), Val::U64(1 << 32), Val::U64(u64::MAX), Val::Neg(-1), Val::Null, Val::Str];
     let datavals = [Val::Seq(0), Val::Seq(2), Val::Seq(3), Val::Seq(6), Val::BadSeq, Val::Null, Val::U64(3)];
-    let (mut docs, mut cmp, mut bad) = (0usize, 0usize, 0usize);
+    let (mut docs, mut cmp, mut bad) = *totals;
     for ks in &keysets {
         for (ci, cv) in dimvals.iter().enumerate() {
             for (ri, rv) in dimvals.iter().enumerate() {
@@ -56,6 +71,7 @@ fn main() {
                 for dv in datavals.iter() {
                     let mut doc = Doc::empty();
                     doc.data = [5, 6, 7, 8, 9, 10, 11, 12, 13];
+                    doc.unit = unit;
                     for k in ks {
                         let v = match k {
                             Key::NumCols => *cv,
@@ -69,7 +85,7 @@ fn main() {
                     docs += 1;
                     let text = to_json(&doc);
                     // real serde_json through its four transports; a panic inside Deserialize counts as its own outcome
-                    let run = |f: &dyn Fn() -> Result<TooDee<u8>, serde_json::Error>| -> Result<Option<TooDee<u8>>, ()> {
+                    let run = |f: &dyn Fn() -> Result<TooDee<T>, serde_json::Error>| -> Result<Option<TooDee<T>>, ()> {
                         match std::panic::catch_unwind(std::panic::AssertUnwindSafe(f)) {
                             Ok(Ok(t)) => Ok(Some(t)),
                             Ok(Err(_)) => Ok(None),
@@ -83,7 +99,7 @@ fn main() {
                     ];
                     let real_slice = run(&|| serde_json::from_slice(text.as_bytes()));
                     for mode in 0..3u8 {
-                        let drv = match std::panic::catch_unwind(std::panic::AssertUnwindSafe(|| TooDee::<u8>::deserialize(DocDe { doc: &doc, mode }))) {
+                        let drv = match std::panic::catch_unwind(std::panic::AssertUnwindSafe(|| TooDee::<T>::deserialize(DocDe { doc: &doc, mode }))) {
                             Ok(Ok(t)) => Ok(Some(t)),
                             Ok(Err(_)) => Ok(None),
                             Err(_) => Err(()),
@@ -108,8 +124,5 @@ fn main() {
             }
         }
     }
-    println!("TV documents={docs} comparisons={cmp} mismatches={bad}");
-    if bad > 0 {
-        std::process::exit(1);
-    }
+    *totals = (docs, cmp, bad);
 }
